@@ -352,6 +352,62 @@ void dfs(Node &n, int depth, std::vector<int> &path, int lo, int hi, int maxtier
   }
 }
 
+// ---- C05 clause: widening chains of the wrapped-interval domain ---------------------------------
+// pool = distinct values reached by core histories of depth <= 2; for all ordered pairs (A,B):
+// acc := A; repeat { nw := acc | B; stop if nw <= acc; acc := acc || nw } must stop within 100 steps
+// (the wrapped widening doubles the size, so <= 64 steps are expected for a 64-bit variable).
+void collect_pool(Node &n, int depth, std::vector<int> &path, std::vector<std::pair<std::unique_ptr<DomBox>, std::vector<int>>> &pool, std::set<std::string> &seenp) {
+  if (depth == 2) return;
+  for (int oi = 0; oi < (int)ALPHA.size(); oi++) {
+    if (ALPHA[oi].tier > 0 && ALPHA[oi].name.find("x:=") != 0 && ALPHA[oi].name.find("assume(x") != 0) continue;
+    Node m = n;
+    path.push_back(oi);
+    if (apply_op(ALPHA[oi], m, path) == ST_OK) {
+      std::string key = m.r[0].box->print();
+      if (seenp.insert(key).second && pool.size() < 400) pool.push_back({m.r[0].box->clone(), path});
+      collect_pool(m, depth + 1, path, pool, seenp);
+    }
+    path.pop_back();
+  }
+}
+void run_chains() {
+  Node n = initial_node();
+  std::vector<std::pair<std::unique_ptr<DomBox>, std::vector<int>>> pool;
+  std::set<std::string> seenp;
+  std::vector<int> path;
+  collect_pool(n, 0, path, pool, seenp);
+  vp::statmax("pool.wrapped_int", (long long)pool.size());
+  for (size_t i = 0; i < pool.size(); i++) {
+    if (!vp::mine(i)) continue;
+    if (vp::past_deadline()) { vp::incomplete("wrapped_int chains"); return; }
+    for (size_t j = 0; j < pool.size(); j++) {
+      std::string spec = "c|" + std::to_string(i) + "|" + std::to_string(j);
+      vp::set_case(spec);
+      n_nodes++;
+      try {
+        std::unique_ptr<DomBox> acc = pool[i].first->clone();
+        bool stationary = false;
+        for (int k = 0; k < 100; k++) {
+          std::unique_ptr<DomBox> nw = acc->clone();
+          Op oj = mk(O_JOIN);
+          nw->apply(oj, pool[j].first.get());
+          n_ops++;
+          if (nw->leq(*acc)) { stationary = true; break; }
+          Op ow = mk(O_WIDEN);
+          acc->apply(ow, nw.get());
+          n_ops++;
+        }
+        if (!stationary)
+          vp::viol("wrapped_int:pair:C05:widening-chain-not-stationary", spec,
+                   "[wrapped_interval_domain] A: " + path_names(pool[i].second) + "  B: " + path_names(pool[j].second) +
+                       " => acc := A; repeat acc := acc || (acc | B) is not stationary after 100 steps; acc = " + acc->print());
+      } catch (std::runtime_error &e) {
+        vp::viol("wrapped_int:pair:abort", spec, e.what());
+      }
+    }
+  }
+}
+
 } // namespace
 
 int main(int argc, char **argv) {
@@ -365,6 +421,15 @@ int main(int argc, char **argv) {
   DOM = find_domain("wrapped_int");
   if (!DOM) { fprintf(stderr, "domain wrapped_int not registered\n"); return 2; }
 
+  if (!vp::args().replay.empty() && vp::args().replay[0] == 'c') {
+    // the pool is deterministic: rebuild it and re-run the row of the pair
+    auto f = vp::split(vp::args().replay, '|');
+    vp::args().nslices = 100000;
+    vp::args().slice = (unsigned)atoi(f[1].c_str());
+    run_chains();
+    vp::finish();
+    return 0;
+  }
   if (!vp::args().replay.empty()) {
     auto f = vp::split(vp::args().replay, '|');
     std::vector<int> path, p;
@@ -379,6 +444,15 @@ int main(int argc, char **argv) {
     return 0;
   }
 
+  if (vp::args().check == "C05") {
+    run_chains();
+    vp::stat("states", n_nodes);
+    vp::stat("transitions", n_ops);
+    vp::stat("traces_validated_against_impl", n_nodes);
+    vp::stat("evaluations", n_nodes);
+    vp::finish();
+    return 0;
+  }
   uint64_t unit = 0;
   bool cut = false;
   for (int phase = 0; phase < 2 && !cut; phase++) {
